@@ -351,7 +351,8 @@ EXOTIC_VALUES = {
 	"bigint": [2 ** 53 + 1, 2 ** 53 + 3, 10 ** 17 + 1, -(2 ** 53) - 1, 3],
 	"complex": [1j, 1 + 2j, complex(2, 0)],
 }
-EXOTIC_ALLOWED = {"Decimal": ("sum", "mean", "min", "max", "count"), "Fraction": ("sum", "mean", "min", "max", "count"), "bigint": ("sum", "min", "max", "count", "mean"), "complex": ("sum", "mean", "count")}
+EXOTIC_VALUES["tuplecells"] = [(1, 2), (0,), (3, 1, 2), (1, 2)]
+EXOTIC_ALLOWED = {"tuplecells": ("count", "min", "max"), "Decimal": ("sum", "mean", "min", "max", "count"), "Fraction": ("sum", "mean", "min", "max", "count"), "bigint": ("sum", "min", "max", "count", "mean"), "complex": ("sum", "mean", "count")}
 APPLY_FUNCS = {
 	"tuple": lambda vals: tuple(vals),
 	"first": lambda vals: vals[0],
@@ -360,6 +361,7 @@ APPLY_FUNCS = {
 	"nones": lambda vals: sum(1 for v in vals if v is None),
 	"join": lambda vals: "|".join(repr(v) for v in vals),
 	"drain": lambda vals: (tuple(vals), vals.clear())[0],   # consumes its input list: a later callback must still get fresh values
+	"identity": lambda vals: vals,      # hands its argument back: each group's cell must hold THAT group's values
 	"sort-in-place": lambda vals: (vals.sort(key=repr), tuple(vals))[1],      # reorders its input list in place
 	"builtin-sum": sum, "builtin-max": max, "builtin-min": min, "builtin-len": len, "builtin-list": list,      # the bare built-ins, passed as they are (no wrapper)
 }
@@ -439,7 +441,8 @@ def gen_agg_spec(rng, max_rows=8, op=None):
 		if not aggs and not apply:
 			aggs = {"count": [{"mode": "name", "name": val_names[0]}]}
 	return {"op": op or rng.choice(["aggregate", "window"]), "table": {"names": names, "cols": cols}, "n": n,
-		"over": key_refs, "scalar_over": scalar_over, "aggs": aggs, "apply": apply}
+		"over": key_refs, "scalar_over": scalar_over, "aggs": aggs, "apply": apply,
+		"over_form": rng.choice(["list", "list", "list", "tuple", "generator", "iter"]), "aggs_form": rng.choice(["list", "list", "list", "generator", "map"])}
 
 
 def _sanit(name):
@@ -473,10 +476,20 @@ def do_agg(spec, op=None, spies=None, table=None):
 	over = [resolve_ref(t, r) for r in spec["over"]]
 	if spec.get("scalar_over") and len(over) == 1:
 		over = over[0]
+	elif spec.get("over_form") == "generator":
+		over = (x for x in list(over))      # one-shot iterables are sequences of keys too
+	elif spec.get("over_form") == "iter":
+		over = iter(list(over))
+	elif spec.get("over_form") == "tuple":
+		over = tuple(over)
 	kw = {}
 	for f, refs in spec["aggs"].items():
 		lst = [resolve_ref(t, r) for r in refs]
-		kw[f + "_over"] = lst[0] if len(lst) == 1 and spec.get("scalar_aggs") else lst
+		if spec.get("aggs_form") == "generator":
+			lst = (x for x in list(lst))
+		elif spec.get("aggs_form") == "map":
+			lst = map(lambda x: x, list(lst))
+		kw[f + "_over"] = lst[0] if isinstance(lst, list) and len(lst) == 1 and spec.get("scalar_aggs") else lst
 	if spec["apply"]:
 		ap = {}
 		for a in spec["apply"]:
